@@ -353,6 +353,10 @@ def check_case(case):
 
         # ------------------------------------------------ antitarget
         tarr = res[case["anti_from_split"]]
+        if gen.pick(case, "anti-raw", 3) == 0:
+            # the bait table itself, zero-width rows included: a zero-width target keeps its 500-base margin like any other
+            # (seeded change C12m dropped zero-width rows while padding the targets)
+            tarr = GA(bait_df.reset_index(drop=True))
         targets = [(r.chromosome, int(r.start), int(r.end)) for r in tarr.data.itertuples(index=False)]
         acc = None
         if case["access"] is not None:
